@@ -116,12 +116,20 @@ NoSurplus(d, gs) ==
 \* a level may declare its positional items IN FRONT of its (name-led) adjacent groups: they are looked for first and
 \* take the first words of the line - also a word typed inside a block, which is thereby cut short
 PosFirst(d) == "pos_first" \in DOMAIN d /\ d.pos_first /\ d.tail.kind = "pos"
+LitHeadOf(d, w) == {k \in DOMAIN d.named : d.named[k].kind = "adj" /\ "head" \in DOMAIN d.named[k] /\
+                                            d.named[k].head.kind = "lit" /\ d.named[k].head.lit = w}
 GWord(d, gs, w) ==
   IF PosFirst(d) /\ Len(gs.pos) < Len(d.tail.items)
   THEN LET s1 == Close(d, gs) IN [s1 EXCEPT !.pos = Append(@, [w |-> w, after |-> FALSE, p |-> s1.n])]
   ELSE
   IF gs.open.k # 0 /\ Len(gs.open.words) < Len(PosMembers(d.named[gs.open.k]))
   THEN AutoClose(d, [gs EXCEPT !.open.words = Append(@, w)])
+  \* the tag of a group may be a fixed word that is looked for anywhere on the line (`literal("+ext").anywhere()`): it
+  \* opens a block wherever it stands
+  ELSE IF LitHeadOf(d, w) # {} /\ (LET k == CHOOSE k \in LitHeadOf(d, w) : TRUE IN
+                                   d.named[k].arity \in {"one", "opt"} => Close(d, gs).blocks[k] = <<>>)
+  THEN LET s1 == Close(d, gs)  k == CHOOSE k \in LitHeadOf(d, w) : TRUE IN
+       AutoClose(d, [s1 EXCEPT !.open = [k |-> k, p |-> s1.n, filled |-> <<>>, words |-> <<>>]])
   ELSE LET s1 == Close(d, gs)  ks == CmdHeadOf(d, w) IN
        \* the name of an adjacent subcommand opens a block, provided it is the first item the level has
        \* not claimed (positional words typed before it are still unclaimed when the command is looked for)
